@@ -21,17 +21,32 @@ TList(e) == [k |-> "list", e |-> e]
 TDict(v) == [k |-> "dict", v |-> v]                    \* keys are str
 TTuple(a, b) == [k |-> "tuple", a |-> a, b |-> b]
 TC == [k |-> "C"]   TE == [k |-> "E"]
+\* a declared name for a type (TypeAlias) and an optional: both are transparent for what can be done with the value
+TAlias(name, t) == [k |-> "alias", name |-> name, t |-> t]
+TOpt(t) == [k |-> "opt", t |-> t]
+RECURSIVE U(_), Plain(_)
+U(t) == IF t.k \in {"alias", "opt"} THEN U(t.t) ELSE t
+Plain(t) == CASE t.k \in {"alias", "opt"} -> FALSE [] t.k = "list" -> Plain(t.e) [] t.k = "dict" -> Plain(t.v) [] t.k = "tuple" -> Plain(t.a) /\ Plain(t.b) [] OTHER -> TRUE
 
 RECURSIVE Describe(_)
 Describe(t) == CASE t.k = "list" -> "list<" \o Describe(t.e) \o ">"
                  [] t.k = "dict" -> "dict<str, " \o Describe(t.v) \o ">"
                  [] t.k = "tuple" -> "tuple<" \o Describe(t.a) \o ", " \o Describe(t.b) \o ">"
+                 [] t.k = "alias" -> t.name \o "=" \o Describe(t.t)
+                 [] t.k = "opt" -> "Union<" \o Describe(t.t) \o ", None>"
                  [] OTHER -> t.k
+\* the type the VALUE has at run time (an alias is its target, an optional that holds a value is that value's type)
+RECURSIVE RunTime(_)
+RunTime(t) == CASE t.k = "list" -> "list<" \o RunTime(t.e) \o ">"
+                [] t.k = "dict" -> "dict<str, " \o RunTime(t.v) \o ">"
+                [] t.k = "tuple" -> "tuple<" \o RunTime(t.a) \o ", " \o RunTime(t.b) \o ">"
+                [] t.k \in {"alias", "opt"} -> RunTime(t.t)
+                [] OTHER -> t.k
 
 \* p = Python precedence level of the outermost construct (16 = atom / postfix chain)
 \* ref = the expression is a reference chain (variable, attribute, index, call): the only operands tranp accepts
 \* for index / attribute / method constructs (indexing a literal or a parenthesised expression is outside the subset)
-Xr(text, ty, p, ref) == [text |-> text, ty |-> ty, p |-> p, ref |-> ref]
+Xr(text, ty, p, ref) == [text |-> text, ty |-> ty, p |-> p, ref |-> ref, view |-> FALSE]
 Xp(text, ty, p) == Xr(text, ty, p, FALSE)
 X(text, ty) == Xr(text, ty, 16, FALSE)
 R(text, ty) == Xr(text, ty, 16, TRUE)
@@ -41,19 +56,26 @@ W(e, need) == IF e.p < need THEN "(" \o e.text \o ")" ELSE e.text
 \* key 'a' present in every dict)
 Vars == { R("n", TInt), R("x", TFloat), R("b", TBool), R("s", TStr),
           R("xs", TList(TInt)), R("ys", TList(TStr)), R("d", TDict(TInt)), R("t", TTuple(TInt, TStr)),
-          R("c", TC), R("e", TE), R("xss", TList(TList(TInt))), R("dl", TDict(TList(TFloat))), R("cs", TList(TC)) }
+          R("c", TC), R("e", TE), R("xss", TList(TList(TInt))), R("dl", TDict(TList(TFloat))), R("cs", TList(TC)),
+          R("xa", TAlias("Ints", TList(TInt))), R("rows", TAlias("Rows", TList(TList(TInt)))), R("da", TAlias("DS", TDict(TInt))),
+          R("xo", TOpt(TList(TInt))), R("co", TOpt(TC)), R("lo", TOpt(TList(TC))) }
 Lits == { X("1", TInt), X("1.5", TFloat), X("True", TBool), X("'a'", TStr), X("C(2)", TC), X("E.A", TE) }
 
 \* one generation step: every expression obtainable from sub-expressions in S by one construct
-Step(S) ==
-  S
+Step(S0) ==
+  LET \* consumers see through aliases and optionals (views); producers of new containers take plain operands only
+      S == {z \in S0 : Plain(z.ty)} \cup {[z EXCEPT !.ty = U(z.ty), !.view = TRUE] : z \in {y \in S0 : y.ty.k \in {"alias", "opt"}}}
+      SP == {z \in S : ~z.view}
+  IN
+  S0
   \cup {R(W(e, 16) \o "[0]", e.ty.e) : e \in {z \in S : z.ref /\ z.ty.k = "list"}}
   \cup {R(W(e, 16) \o "['a']", e.ty.v) : e \in {z \in S : z.ref /\ z.ty.k = "dict"}}
   \cup {R(W(e, 16) \o "[0]", e.ty.a) : e \in {z \in S : z.ref /\ z.ty.k = "tuple"}}
   \cup {R(W(e, 16) \o "[1]", e.ty.b) : e \in {z \in S : z.ref /\ z.ty.k = "tuple"}}
-  \cup {X("[" \o W(e, 3) \o ", " \o W(e, 3) \o "]", TList(e.ty)) : e \in S}
-  \cup {X("{'a': " \o W(e, 3) \o "}", TDict(e.ty)) : e \in S}
-  \cup {X("(" \o W(e, 3) \o ", s)", TTuple(e.ty, TStr)) : e \in S}
+  \cup {X("[" \o W(e, 3) \o ", " \o W(e, 3) \o "]", TList(e.ty)) : e \in SP}
+  \cup {X("{'a': " \o W(e, 3) \o "}", TDict(e.ty)) : e \in SP}
+  \cup {X("(" \o W(e, 3) \o ", s)", TTuple(e.ty, TStr)) : e \in SP}
+  \cup {Xp(W(e, 16) \o "[0] if " \o W(e, 3) \o " else 1", TInt, 2) : e \in {z \in S0 : z.ref /\ z.ty = TOpt(TList(TInt))}}
   \cup {X("len(" \o e.text \o ")", TInt) : e \in {z \in S : z.ty.k \in {"list", "dict", "str"}}}
   \cup {R(W(e, 16) \o ".n", TInt) : e \in {z \in S : z.ref /\ z.ty.k = "C"}}
   \cup {R(W(e, 16) \o ".m()", TStr) : e \in {z \in S : z.ref /\ z.ty.k = "C"}}
@@ -62,7 +84,7 @@ Step(S) ==
   \cup {X("[v for v in " \o W(e, 3) \o "]", e.ty) : e \in {z \in S : z.ty.k = "list"}}
   \cup {X("[len(v) for v in " \o W(e, 3) \o "]", TList(TInt)) : e \in {z \in S : z.ty.k = "list" /\ z.ty.e.k \in {"str", "list"}}}
   \cup {X("{k2: v2 for k2, v2 in " \o W(e, 16) \o ".items()}", e.ty) : e \in {z \in S : z.ref /\ z.ty.k = "dict"}}
-  \cup {Xp(W(e, 3) \o " if b else " \o W(e, 2), e.ty, 2) : e \in {z \in S : z.ty.k \in {"int", "str", "list", "C"}}}
+  \cup {Xp(W(e, 3) \o " if b else " \o W(e, 2), e.ty, 2) : e \in {z \in SP : z.ty.k \in {"int", "str", "list", "C"}}}
   \cup {Xp(W(e, 11) \o " + 1", TInt, 11) : e \in {z \in S : z.ty.k = "int"}}
   \cup {Xp(W(e, 12) \o " * 2", TInt, 12) : e \in {z \in S : z.ty.k = "int"}}
   \cup {Xp(W(e, 12) \o " % 3", TInt, 12) : e \in {z \in S : z.ty.k = "int"}}
@@ -90,8 +112,9 @@ Universe == Gen(Depth)
 RECURSIVE Determined(_)
 Determined(t) == CASE t.k = "list" -> Determined(t.e) [] t.k = "dict" -> Determined(t.v)
                    [] t.k = "tuple" -> Determined(t.a) /\ Determined(t.b)
+                   [] t.k \in {"alias", "opt"} -> Determined(t.t)
                    [] OTHER -> t.k \in {"int", "float", "bool", "str", "C", "E"}
 Total == \A e \in Universe : Determined(e.ty)
 
-Emit == \A e \in Universe : PrintT("CASE " \o ToJson([text |-> e.text, type |-> Describe(e.ty)]))
+Emit == \A e \in Universe : PrintT("CASE " \o ToJson([text |-> e.text, type |-> Describe(e.ty), rtype |-> RunTime(e.ty)]))
 =============================================================================
